@@ -1766,6 +1766,13 @@ theorem applyBatch_conflict {d : Doc} {c x : Change} (hx : x ∈ d.applied ++ d.
 
 deriving instance DecidableEq for Doc
 
+instance : DecidableEq (Except ApplyErr Unit)
+  | .ok (), .ok () => isTrue rfl
+  | .error a, .error b =>
+    if h : a = b then isTrue (by rw [h]) else isFalse (by intro he; cases he; exact h rfl)
+  | .ok _, .error _ => isFalse (by intro h; cases h)
+  | .error _, .ok _ => isFalse (by intro h; cases h)
+
 /-! ## example data for the non-vacuity checks in `Props/` -/
 namespace Ex
 
